@@ -163,6 +163,42 @@ func zzC12_handshake() {
 		vQuiesce()
 		vAssert(!t.isClosed, "the connection stays open whatever further or duplicate CEAs the peer sends")
 	}
+	if vParam("DIAL2", 1) == 1 && extra == 0 && zzFlag("secondDial") {
+		// the same Client dials a second peer while the first connection is open; an extra CEA on the
+		// first connection must not be taken for the second handshake's answer
+		t2 := zzNewTransport("198.51.100.8:3868")
+		var conn2 diam.Conn
+		var herr2 error
+		done2 := false
+		go func() {
+			conn2, herr2 = cli.NewConn(t2, "zz2")
+			done2 = true
+		}()
+		vQuiesce()
+		vAssume(len(t2.written) >= 1 && !done2)
+		// (duplicate success or late failure: symbolic result code, application 4)
+		crossCEA := cer.Answer(vU32("cross.rc"))
+		crossCEA.NewAVP(avp.OriginHost, avp.Mbit, 0, datatype.DiameterIdentity("peer.example"))
+		crossCEA.NewAVP(avp.OriginRealm, avp.Mbit, 0, datatype.DiameterIdentity("peers"))
+		crossCEA.NewAVP(avp.AuthApplicationID, avp.Mbit, 0, datatype.Unsigned32(4))
+		b, be := crossCEA.Serialize()
+		vAssume(be == nil)
+		t.in <- b
+		vQuiesce()
+		vAssert(!done2, "a CEA on another connection does not settle this handshake")
+		vAssert(!t.isClosed && !t2.isClosed, "both connections stay open")
+		cer2, e2 := diam.ReadMessage(&zzReader{b: t2.written[len(t2.written)-1]}, dict.Default)
+		vAssume(e2 == nil)
+		good := cer2.Answer(diam.Success)
+		good.NewAVP(avp.OriginHost, avp.Mbit, 0, datatype.DiameterIdentity("peer2.example"))
+		good.NewAVP(avp.OriginRealm, avp.Mbit, 0, datatype.DiameterIdentity("peers"))
+		good.NewAVP(avp.AuthApplicationID, avp.Mbit, 0, datatype.Unsigned32(4))
+		gb, ge := good.Serialize()
+		vAssume(ge == nil)
+		t2.in <- gb
+		vQuiesce()
+		vAssert(done2 && conn2 != nil && herr2 == nil && !t2.isClosed, "the second dial succeeds on its own peer's success CEA")
+	}
 	ans := diam.NewMessage(diam.CreditControl, 0, 4, 77, 78, dict.Default)
 	ans.NewAVP(avp.SessionID, avp.Mbit, 0, datatype.UTF8String("s;1"))
 	ab, aerr := ans.Serialize()
